@@ -628,9 +628,17 @@ fn run_pixeldata(w: &mut Tape, env: &EnvRef) -> RunResult {
                 }
                 if !idx.is_empty() {
                     let i = idx[w.below(idx.len() as u32) as usize];
-                    let v: u16 = [0, 1, 2, 3, 7, 8, 9, 12, 16, 17, 32, 64, 255, 256, 4096, 65535][w.below(16) as usize];
-                    file[i..i + 2].copy_from_slice(&v.to_le_bytes());
-                    env.with(|e| e.obs.fault("image-attribute"));
+                    if w.chance(1, 4) {
+                        // the declared length of the attribute (2 in the valid file): a torn or misdirected write
+                        // that leaves a short, odd or longer length in front of an intact value
+                        let l: u16 = [0, 1, 3, 4, 6, 1, 255, 65535][w.below(8) as usize];
+                        file[i - 2..i].copy_from_slice(&l.to_le_bytes());
+                        env.with(|e| e.obs.fault("image-attribute-length"));
+                    } else {
+                        let v: u16 = [0, 1, 2, 3, 7, 8, 9, 12, 16, 17, 32, 64, 255, 256, 4096, 65535][w.below(16) as usize];
+                        file[i..i + 2].copy_from_slice(&v.to_le_bytes());
+                        env.with(|e| e.obs.fault("image-attribute"));
+                    }
                 }
             }
             1 => {
